@@ -63,6 +63,9 @@ def make_pool(rng, work):
     # compiled alone (lou_charToDots / lou_dotsToChar first) or together with the translation part must not matter
     (work / "G.utb").write_text("space \\s 0\nlowercase a 1\nlowercase b 12\ngrouping paren () 126,345\nsign - 36\n")
     lists += [str(work / n) for n in ("A.utb", "B.utb", "C.utb", "D.utb", "V.utb", "V.utb", "W.utb", "W.utb", "G.utb", "G.utb")]
+    # a list and a longer list that begins with the same name and translates differently: which one a name denotes must not
+    # depend on which was loaded first
+    lists += [str(work / "A.utb") + "," + str(work / "C.utb"), str(work / "A.utb")]
     for i in range(2):
         r = rng.fork(("emph", i))
         text, _al = tablegen.gen_emphasis_table(r)
@@ -172,6 +175,10 @@ def run(chk):
         for tr in (trans.case_line("T", 0, paren, 40), trans.case_line("B", 0, [ord(c) for c in "(a)-b"], 40, presence=12)):
             scenarios.append(["F", "Y %s ;; %s" % (gg, disp), "Y %s ;; %s" % (gg, tr)])
             scenarios.append(["F", "Y %s ;; %s" % (gg, tr), "Y %s ;; %s" % (gg, disp)])
+    ac, aa = str(work / "A.utb") + "," + str(work / "C.utb"), str(work / "A.utb")
+    for cells_ in ([0x8001, 0x8003, 0x8001], [0x8003, 0x8001]):
+        scenarios.append(["F", "Y %s ;; %s" % (ac, trans.case_line("B", 4, cells_, 12)), "Y %s ;; %s" % (aa, trans.case_line("B", 4, cells_, 12))])
+        scenarios.append(["F", "Y %s ;; %s" % (ac, trans.case_line("T", 4, [97, 98, 97], 12)), "Y %s ;; %s" % (aa, trans.case_line("T", 4, [97, 98, 97], 12))])
     for sc in scenarios:
         pool += [c for c in sc if c != "F"]
     fresh = {}
